@@ -35,6 +35,7 @@ RULE = (
     'succeeds so does dump_json(t(c)). Non-trivial: input has a default that is positional-only, '
     'mutable or produced by a factory, and sharing.'
 )
+RULE += (' ' + 'Also generated: a callable with a required positional-only parameter followed by defaulted positional-only ones (po3).')
 ASSUMPTIONS = [
     'a dataclass default_factory is not a "default value": it need not (and cannot) be materialized',
     'inputs whose own build raises are skipped (nothing to preserve)',
